@@ -71,6 +71,22 @@ inline bool log_id(L* l, int thread, int seq, size_t padding = 0)
   return l->template log_statement<false, false>(LogLevel::None, &md, thread, seq, pad(padding));
 }
 
+// same, with the padding passed as a C string (exercises the per-thread string-length cache)
+inline char const* pad_c(size_t n)
+{
+  static std::map<size_t, std::string> bufs;
+  auto it = bufs.find(n);
+  if (it == bufs.end()) it = bufs.emplace(n, std::string(n, 'c')).first;
+  return it->second.c_str();
+}
+template <typename L>
+inline bool log_id_c(L* l, int thread, int seq, size_t padding = 0)
+{
+  static constexpr MacroMetadata md{"sc.cpp:2", "fn", "{}.{}|{}{}", nullptr, LogLevel::Info, MacroMetadata::Event::Log};
+  // two C strings of different lengths: 3 bytes and `padding` bytes
+  return l->template log_statement<false, false>(LogLevel::None, &md, thread, seq, pad_c(padding), pad_c(3));
+}
+
 inline std::string id_of(std::string const& msg) { return msg.substr(0, msg.find('|')); }
 
 // exactly-once + per-thread order for one sink, given the ids expected there (in issue order per thread)
